@@ -1,6 +1,7 @@
 package main
 
 import (
+	"go/token"
 	"fmt"
 	"strings"
 
@@ -59,7 +60,11 @@ func sendFeatures(fn *ssa.Function) []sendFeat {
 			return
 		}
 		f := sendFeat{send: s}
-		for _, cond := range controllingConds(in) {
+		conds := controllingConds(in)
+		for _, cond := range append([]ssa.Value{}, conds...) {
+			conds = append(conds, shortCircuitConds(cond)...)
+		}
+		for _, cond := range conds {
 			for _, l := range provenance(cond, provOpts{ThroughCall: throughAll}) {
 				switch l.Kind {
 				case "lookup":
@@ -72,6 +77,54 @@ func sendFeatures(fn *ssa.Function) []sendFeat {
 		}
 		out = append(out, f)
 	})
+	return out
+}
+
+// shortCircuitConds: a condition that is (the negation of) a phi built by `a || b` / `a && b` is decided by the If
+// conditions of the blocks between the phi's dominator and the phi; those are returned (recursively).
+func shortCircuitConds(cond ssa.Value) []ssa.Value {
+	var out []ssa.Value
+	seen := map[ssa.Value]bool{}
+	var walk func(v ssa.Value)
+	walk = func(v ssa.Value) {
+		if v == nil || seen[v] {
+			return
+		}
+		seen[v] = true
+		switch x := v.(type) {
+		case *ssa.UnOp:
+			if x.Op == token.NOT {
+				walk(x.X)
+			}
+		case *ssa.Phi:
+			top := x.Block().Idom()
+			vis := map[*ssa.BasicBlock]bool{}
+			var back func(b *ssa.BasicBlock)
+			back = func(b *ssa.BasicBlock) {
+				if b == nil || vis[b] {
+					return
+				}
+				vis[b] = true
+				if iff, ok := b.Instrs[len(b.Instrs)-1].(*ssa.If); ok {
+					out = append(out, iff.Cond)
+					walk(iff.Cond)
+				}
+				if b == top {
+					return
+				}
+				for _, p := range b.Preds {
+					back(p)
+				}
+			}
+			for _, p := range x.Block().Preds {
+				back(p)
+			}
+			for _, e := range x.Edges {
+				walk(e)
+			}
+		}
+	}
+	walk(cond)
 	return out
 }
 
@@ -126,7 +179,40 @@ func c19R1(c *Ctx, id string) {
 	c.rule(id, "detectors-present", 8, func() {
 		chk := c.fn("bbolt.(*Tx).check")
 		vpr := c.fn("bbolt.verifyPageReachable")
-		cf := sendFeatures(chk)
+		// the detectors of (*Tx).check may live in helpers extracted from it: every package-local function check calls
+		// (two levels) that sends on an error channel and is not one of the recursive walkers
+		chkTree := []*ssa.Function{chk}
+		{
+			seen := map[*ssa.Function]bool{chk: true, vpr: true}
+			for i := 0; i < len(chkTree) && i < 16; i++ {
+				eachInstr(chkTree[i], func(in ssa.Instruction) {
+					call, ok := in.(*ssa.Call)
+					if !ok {
+						return
+					}
+					f := calleeOf(call).Static
+					if f == nil || seen[f] || fnPkg(f) == nil || fnPkg(f).Path() != rootPkg || strings.Contains(f.Name(), "recursivelyCheck") || f.Name() == "checkInvariantProperties" {
+						return
+					}
+					seen[f] = true
+					hasSend := false
+					eachInstr(f, func(i2 ssa.Instruction) {
+						if _, ok := i2.(*ssa.Send); ok {
+							hasSend = true
+						}
+					})
+					if hasSend {
+						chkTree = append(chkTree, f)
+					}
+				})
+			}
+		}
+		var cf []sendFeat
+		copyalls := 0
+		for _, f := range chkTree {
+			cf = append(cf, sendFeatures(f)...)
+			copyalls += len(callsIn(f, "freelist.Interface.Copyall"))
+		}
 		vf := sendFeatures(vpr)
 		// map types distinguish freed (map[Pgid]bool) from reachable (map[Pgid]*Page)
 		typeOf := func(f sendFeat, want string) bool {
@@ -149,7 +235,7 @@ func c19R1(c *Ctx, id string) {
 		}
 		// (i) freed twice: a send under a lookup in the bool map while enumerating freelist.Copyall
 		d1 := find(cf, func(f sendFeat) bool { return typeOf(f, "]bool") && !typeOf(f, "*go.etcd.io/bbolt/internal/common.Page") })
-		okCopy := len(callsIn(chk, "freelist.Interface.Copyall")) == 1
+		okCopy := copyalls == 1
 		c.check(id+":(*Tx).check:freed-twice", chk, chk.Pos(), "a repeated id while enumerating freelist.Copyall is sent to the error channel (freed twice)", d1 != nil && okCopy, "no send is controlled by a hit in the `freed` map during the enumeration")
 		// (v) unreachable yet not free: a send under both maps, in the loop bounded by meta.Pgid()
 		d5 := find(cf, func(f sendFeat) bool { return typeOf(f, "]bool") && typeOf(f, "*go.etcd.io/bbolt/internal/common.Page") })
@@ -194,7 +280,7 @@ func c19R1(c *Ctx, id string) {
 					vals[n] = mask&(1<<i) != 0
 				}
 				rows++
-				got := sendReachableUnder(fn, send.send, vals)
+				got := sendReachableUnder(send.send.Parent(), send.send, vals)
 				if got != want(vals) {
 					bad = fmt.Sprintf("%v: reported=%v, want %v", vals, got, want(vals))
 				}
@@ -436,36 +522,46 @@ func c19R4(c *Ctx, id string) {
 			}
 		}
 		c.check(id+":command.checkFunc:counts-every-error", cl, cl.Pos(), "every value received from tx.Check() increments the problem counter", okCount, detail)
-		// count > 0 => non-nil error; otherwise nil
-		okRet := false
-		if counter != nil {
-			for _, b := range cl.Blocks {
-				iff, isIf := b.Instrs[len(b.Instrs)-1].(*ssa.If)
-				if !isIf {
-					continue
-				}
-				bo, isBin := iff.Cond.(*ssa.BinOp)
-				if !isBin || bo.X != ssa.Value(counter) {
-					continue
-				}
-				if k, isC := constInt(bo.Y); !isC || k != 0 || bo.Op.String() != ">" {
-					continue
-				}
-				errOnTrue, nilOnFalse := false, false
-				for in := range reach(nil, []*ssa.BasicBlock{b.Succs[0]}, nil, nil) {
-					if ret, isR := in.(*ssa.Return); isR && blockDominatedByEdge(b, b.Succs[0], ret.Block()) {
-						errOnTrue = classifyReturn(ret) == retError
+		// count > 0 => non-nil error; otherwise nil: the closure is executed with 0, 1 and 3 reported problems
+		_ = counter
+		bad := ""
+		for _, problems := range []int{0, 1, 3} {
+			got := 0
+			ev := &Evaluator{
+				MaxSteps: 4000,
+				Call: func(call *ssa.Call, args []V) (V, bool) {
+					if call.Call.Signature().Results().Len() == 1 {
+						return symV("call:" + calleeOf(call).Name()), true
 					}
-				}
-				for in := range reach(nil, []*ssa.BasicBlock{b.Succs[1]}, nil, nil) {
-					if ret, isR := in.(*ssa.Return); isR {
-						nilOnFalse = classifyReturn(ret) == retSuccess
+					return unkV, false
+				},
+				Tuple: func(v ssa.Value) ([]V, bool) {
+					if u, ok := v.(*ssa.UnOp); ok && u.Op.String() == "<-" && u.CommaOk {
+						got++
+						return []V{symV("problem"), bV(got <= problems)}, true
 					}
-				}
-				okRet = errOnTrue && nilOnFalse
+					return nil, false
+				},
+				Value: func(v ssa.Value) (V, bool) {
+					if u, ok := v.(*ssa.UnOp); ok && u.Op.String() == "<-" && !u.CommaOk {
+						return symV("problem"), true
+					}
+					return unkV, false
+				},
+				FreeVar: func(f *ssa.FreeVar) (V, bool) { return symV("free:" + f.Name()), true },
+				Param:   func(p *ssa.Parameter) (V, bool) { return symV("param:" + p.Name()), true },
+			}
+			o := ev.Exec(cl, nil)
+			switch {
+			case o.Kind != "return" || len(o.Rets) != 1:
+				bad = fmt.Sprintf("with %d reported problems the closure's result is %s", problems, o)
+			case problems == 0 && o.Rets[0].K != vNil:
+				bad = fmt.Sprintf("with no reported problem the closure returns %s, not nil", o.Rets[0])
+			case problems > 0 && (o.Rets[0].K == vNil || o.Rets[0].K == vUnknown):
+				bad = fmt.Sprintf("with %d reported problems the closure returns %s, not an error", problems, o.Rets[0])
 			}
 		}
-		c.check(id+":command.checkFunc:count>0->error", cl, cl.Pos(), "a positive count makes the closure return a non-nil error, a zero count nil", okRet, "the result does not follow the count")
+		c.check(id+":command.checkFunc:count>0->error", cl, cl.Pos(), "a positive count makes the closure return a non-nil error, a zero count nil (closure executed with 0, 1 and 3 problems received)", bad == "", bad)
 		// View's result is returned by checkFunc; RunE returns checkFunc's result
 		okProp := false
 		for _, ret := range returnsOf(cf) {
@@ -556,6 +652,38 @@ func sendReachableUnder(fn *ssa.Function, send *ssa.Send, vals map[string]bool) 
 			}
 		case *ssa.Const:
 			return constBool(x)
+		case *ssa.Phi:
+			// a short-circuit phi: follow the decided branches from the phi's dominator to the phi
+			cur := x.Block().Idom()
+			var prev *ssa.BasicBlock
+			for steps := 0; cur != nil && steps < 32; steps++ {
+				if cur == x.Block() && prev != nil {
+					for i, p := range cur.Preds {
+						if p == prev {
+							return eval(x.Edges[i])
+						}
+					}
+					return false, false
+				}
+				var next *ssa.BasicBlock
+				switch t := cur.Instrs[len(cur.Instrs)-1].(type) {
+				case *ssa.If:
+					b, known := eval(t.Cond)
+					if !known {
+						return false, false
+					}
+					if b {
+						next = cur.Succs[0]
+					} else {
+						next = cur.Succs[1]
+					}
+				case *ssa.Jump:
+					next = cur.Succs[0]
+				default:
+					return false, false
+				}
+				prev, cur = cur, next
+			}
 		}
 		return false, false
 	}
